@@ -149,6 +149,8 @@ pub struct HybridRunner {
     nv: u64,
     truth: BTreeMap<u64, u64>,
     seen_done: BTreeSet<usize>,
+    /// a lookup started by "get_start" whose disk read is held at the device gate, until "get_finish"
+    pending_get: Option<(u64, std::pin::Pin<Box<dyn std::future::Future<Output = foyer::Result<Option<foyer::HybridCacheEntry<u64, HVal, TableHashBuilder>>>>>>)>,
     /// handles returned by inserts that the driver keeps ("ins_h") until "drop_h"
     held: Vec<foyer::HybridCacheEntry<u64, HVal, TableHashBuilder>>,
 }
@@ -330,6 +332,7 @@ impl HybridRunner {
             truth: BTreeMap::new(),
             seen_done: BTreeSet::new(),
             held: vec![],
+            pending_get: None,
         })
     }
 
@@ -496,6 +499,7 @@ impl HybridRunner {
         }
         if a == "reopen" {
             self.held.clear();
+            self.pending_get = None;
             drop(self.cache.take());
             self.turn();
             self.switch.off();
@@ -556,6 +560,48 @@ impl HybridRunner {
                     Some(Ok(None)) => 0,
                     Some(Err(_)) => -1,
                 };
+            }
+            "get_start" => {
+                // the device holds reads: the lookup gets as far as its disk read and stays there
+                self.gate.set_hold(false, true);
+                let c2 = cache.clone();
+                let mut fut: std::pin::Pin<Box<dyn std::future::Future<Output = _>>> = Box::pin(async move { c2.get(&k).await });
+                let mut cx = Context::from_waker(Waker::noop());
+                let mut done = None;
+                for _ in 0..4 {
+                    let g = self.rt.enter();
+                    if let Poll::Ready(r) = fut.as_mut().poll(&mut cx) {
+                        done = Some(r);
+                        break;
+                    }
+                    drop(g);
+                    self.turn();
+                }
+                match done {
+                    // answered without a disk read in flight: report it at once (the specification does not expect this)
+                    Some(r) => {
+                        self.gate.set_hold(false, false);
+                        self.gate.release_all();
+                        res = match r {
+                            Ok(Some(e)) => Self::encode_res(e.value(), k),
+                            Ok(None) => 0,
+                            Err(_) => -1,
+                        };
+                    }
+                    None => self.pending_get = Some((k, fut)),
+                }
+            }
+            "get_finish" => {
+                self.gate.set_hold(false, false);
+                self.gate.release_all();
+                if let Some((pk, fut)) = self.pending_get.take() {
+                    res = match self.drive(fut) {
+                        None => -2,
+                        Some(Ok(Some(e))) => Self::encode_res(e.value(), pk),
+                        Some(Ok(None)) => 0,
+                        Some(Err(_)) => -1,
+                    };
+                }
             }
             "sload" => {
                 res = self.store_load(k);
